@@ -63,6 +63,7 @@ class Env(object):
         self.REP = {"A": e.BASIC, "P": e.PROJC, "J": e.JACOB}
         self.TAG = {v: k for k, v in self.REP.items()}
         self.A, self.B, self.C, self.D = e.new(), e.new(), e.new(), e.new()
+        self.L1, self.L2, self.L3 = e.new(), e.new(), e.new()      # scratch of wr_lib
         self.k, self.m = R.bn_new(), R.bn_new()
         self.nb = M.r.bit_length()
         self.FPB = R.K["RLC_FP_BITS"]
@@ -73,6 +74,7 @@ class Env(object):
             s = self.rng.randrange(M.r)
             assert self.E.eq(self.G.mul(s), self.E.mul(s, M.G2))
         self.G2x = self.G.mul(2)
+        self.NAT = {"ep2_add_projc": "P", "ep2_add_jacob": "J", "ep2_add_basic": "A"}[R.target("ep2_add")]
 
     # ---------------------------------------------------------------- points
     def sub_base(self):
@@ -92,8 +94,51 @@ class Env(object):
             return (p - 1, rng.randrange(p))
         return (rng.randrange(1, p), rng.randrange(p))
 
-    def wr(self, obj, pt, rep="A", inf=None):
+    def wr_lib(self, obj, pt, order=None):
+        """pt in the non-normalised representation the LIBRARY itself produces: obj receives the raw result object of
+        ep2_add(U, V) with U + V = pt, of ep2_dbl(H) with 2H = pt (needs the order of pt) or of ep2_blind(pt), bytes and tag
+        exactly as returned.  The result is read back and compared with the model; a producer that is itself wrong (judged
+        by its own cases) makes this fall back to the written native form."""
+        R, e, E, F2, rng = self.R, self.e, self.E, self.F2, self.rng
+        how = rng.choice(["add", "add", "blind", "dbl" if order else "add"])
+        if how == "add":
+            V = self.G.mul(rng.randrange(1, 1 << 16))
+            U = E.add(pt, E.neg(V))
+            if U is None or E.eq(U, V):
+                how = "blind"
+            else:
+                e.put(self.L1, U, F2)
+                e.put(self.L2, V, F2)
+                e.poison(self.L3)
+                res = R.call("ep2_add", self.L3, self.L1, self.L2)
+        if how == "dbl":
+            e.put(self.L1, E.mul((order + 1) // 2, pt), F2)
+            e.poison(self.L3)
+            res = R.call("ep2_dbl", self.L3, self.L1)
+        if how == "blind":
+            e.put(self.L1, pt, F2)
+            e.poison(self.L3)
+            res = R.call("ep2_blind", self.L3, self.L1)
+        try:
+            got, coord, canon, z = e.get(self.L3, F2)
+        except (ValueError, ZeroDivisionError):
+            got = "bad"
+        if res.caught or got == "bad" or got is None or not E.eq(got, pt):
+            d = self.wr(obj, pt, self.NAT)
+            d["fallback_from"] = how
+            self.ctx.add("lib_projective_fallbacks", 1)
+            return d
+        self.ctx.add("lib_projective_inputs", 1)
+        ctypes.memmove(obj, self.L3, e.sz)
+        return {"rep": "L", "how": how, "tag": coord, "z": [hx(z[0]), hx(z[1])]}
+
+    def wr(self, obj, pt, rep="A", inf=None, order=None):
         """write model point pt into obj in representation rep; returns the description of the encoding"""
+        if rep == "L":
+            if pt is None:
+                rep = "A"
+            else:
+                return self.wr_lib(obj, pt, order)
         z = self.randz() if rep != "A" else None
         if pt is None and inf is None:
             inf = self.rng.choice(["lib", "lib", "proj"])
@@ -323,10 +368,14 @@ def run(ctx, part):
             return rng.choice(S), "A"
         if pcls == "subN":            # native projective system of this build (what ep2_add produces)
             return rng.choice(S), NAT
+        if pcls == "subL":            # raw result object of ep2_add / ep2_dbl / ep2_blind (library-produced projective form)
+            return rng.choice(S), "L"
         if pcls == "tw":
             return rng.choice(T), "A"
         if pcls == "twN":
             return rng.choice(T), NAT
+        if pcls == "twL":
+            return rng.choice(T), "L"
         if pcls == "small":
             return epx.Base(E, rng.choice(small)[1]), "A"
         return epx.Base(E, None), "A"
@@ -359,11 +408,13 @@ def run(ctx, part):
             else:
                 bp = bq = epx.Base(E, None)
             g0, g1 = sorted((group(kc), group(mc)))
-            key = "%s|%s|%s,%s%s%s" % (fn, rel, g0, g1, "" if reps == "AA" else "|proj", "|alias" if alias else "")
+            key = "%s|%s|%s,%s%s%s" % (fn, rel, g0, g1, "" if reps == "AA" else ("|lib-proj" if "L" in reps else "|proj"),
+                                       "|alias" if alias else "")
             if fn == "ep2_mul_sim_trick" and bp.P is not None and bq.P is not None and (trick_fatal(k) or trick_fatal(m)):
                 key = "ep2_mul_sim_trick|short-window"
-            da = env.wr(A, bp.P, NAT if reps[0] == "N" else "A")
-            db = env.wr(B, bq.P, NAT if reps[1] == "N" else "A")
+            rmap = {"A": "A", "N": NAT, "L": "L"}
+            da = env.wr(A, bp.P, rmap[reps[0]], order=bp.order)
+            db = env.wr(B, bq.P, rmap[reps[1]], order=bq.order)
             env.setk(env.k, k)
             env.setk(env.m, m)
             if not ctx.begin(key, {"P": pd(bp.P), "Q": pd(bq.P), "a": da, "b": db, "k": hx(k), "m": hx(m),
@@ -683,7 +734,7 @@ def run(ctx, part):
                 return
             base, rep = pick_point(pcls)
             key = "%s|%s|%s%s" % (fn, kcls(scls), "sub" if pcls == "G" else pcls, "|alias" if alias else "")
-            da = env.wr(A, base.P, rep)
+            da = env.wr(A, base.P, rep, order=base.order)
             env.setk(env.k, k)
             if not ctx.begin(key, {"P": pd(base.P), "a": da, "k": hx(k), "kclass": scls, "pclass": pcls},
                              nontrivial=base.P is not None and k != 0):
@@ -706,12 +757,12 @@ def run(ctx, part):
                 mul_case(fn, scls, k, "G" if i % 2 == 0 else "sub")
         # points of small order: only the plain double-and-add routines that the cofactor map and the membership
         # tests apply to arbitrary curve points (window tables of such points contain the identity)
-        pcl = ["inf", "subN"] + ([] if fn in SUBONLY else ["tw", "twN"] +
+        pcl = ["inf", "subN", "subL"] + ([] if fn in SUBONLY else ["tw", "twN", "twL"] +
                                  (["small"] if small and fn in ("ep2_mul_basic", "ep2_mul_big") else []))
         for pcls in pcl:
             for scls, k in (("zero", 0), ("one", 1), ("small", 3), ("n-1", n - 1), ("n", n), ("neg-small", -2),
                             ("rand", rng.randrange(n)), ("over", n * n + 5)):
-                if pcls in ("tw", "twN", "small") and abs(k) > (1 << (env.nb + 2)):
+                if pcls in ("tw", "twN", "twL", "small") and abs(k) > (1 << (env.nb + 2)):
                     continue
                 if mine():
                     mul_case(fn, scls, k, pcls)
@@ -722,7 +773,7 @@ def run(ctx, part):
     for _ in range(N(340, 6000)):
         fn = rng.choice(mulfns)
         scls, k = rand_scalar(env)
-        pcls = rng.choice(["G", "sub", "sub", "subN", "subN"] + ([] if fn in SUBONLY else ["tw", "tw", "twN"]))
+        pcls = rng.choice(["G", "sub", "sub", "subN", "subL"] + ([] if fn in SUBONLY else ["tw", "tw", "twN", "twL"]))
         mul_case(fn, scls, k, pcls, alias=int(rng.random() < 0.2))
 
     # ---- generator, digit
@@ -751,7 +802,7 @@ def run(ctx, part):
             base, rep = pick_point(pcls)
             dc = "zero" if d == 0 else ("one" if d == 1 else ("top-bit" if d >> 63 else "dig"))
             key = "ep2_mul_dig|%s|%s%s" % (dc, pcls, "|alias" if alias else "")
-            da = env.wr(A, base.P, rep)
+            da = env.wr(A, base.P, rep, order=base.order)
             if not ctx.begin(key, {"P": pd(base.P), "a": da, "k": hx(d)}, nontrivial=base.P is not None and d != 0):
                 return
             e.poison(C)
@@ -765,15 +816,15 @@ def run(ctx, part):
 
     if has("ep2_mul_dig"):
         for d in (0, 1, 2, 3, 0xFFFF, 1 << 32, 1 << 63, (1 << 64) - 1, (1 << 63) + 1, 0xAAAAAAAAAAAAAAAA):
-            for pcls in ("G", "sub", "subN", "tw", "inf"):
+            for pcls in ("G", "sub", "subN", "subL", "tw", "inf"):
                 if mine():
                     dig_case(d, pcls)
         for _ in range(N(50, 800)):
-            dig_case(rng.getrandbits(rng.choice([3, 17, 64, 64])), rng.choice(["G", "sub", "subN", "subN", "tw", "twN"]),
+            dig_case(rng.getrandbits(rng.choice([3, 17, 64, 64])), rng.choice(["G", "sub", "subN", "subL", "tw", "twN", "twL"]),
                      int(rng.random() < 0.2))
 
     # =========================================================================== fixed base
-    def fix_family(v, base, pcls, klist):
+    def fix_family(v, base, pcls, klist, prep="A"):
         pre, fix = ("ep2_mul_pre", "ep2_mul_fix") if v == "macro" else ("ep2_mul_pre_" + v, "ep2_mul_fix_" + v)
         if not (has(pre) and has(fix)):
             return
@@ -785,7 +836,7 @@ def run(ctx, part):
 
         def body_pre():
             key = "%s|%s" % (pre, pcls)
-            da = env.wr(A, base.P, "A")
+            da = env.wr(A, base.P, prep, order=base.order)
             began = ctx.begin(key, {"P": pd(base.P), "a": da, "table": size}, nontrivial=base.P is not None)
             if not began and ctx.only is None:
                 return                      # this precomputation crashed earlier in the run: skip the family
@@ -825,6 +876,11 @@ def run(ctx, part):
                    [rand_scalar(env) for _ in range(N(12, 300))])
         if ctx.mine(fi):
             fix_family(v, epx.Base(E, None), "inf", [("zero", 0), ("one", 1), ("rand", rng.randrange(n))])
+        # tables built from a point in projective form (written native form / raw library result)
+        for pj, (pcl_, prep_) in enumerate((("subN", NAT), ("subL", "L"))):
+            if ctx.mine(fi + pj + 1):
+                fix_family(v, rng.choice(S), pcl_, [("one", 1), ("n-1", n - 1), ("neg", -rng.randrange(n))] +
+                           [rand_scalar(env) for _ in range(N(5, 100))], prep=prep_)
 
     # =========================================================================== simultaneous
     simfns = [f for f in ("ep2_mul_sim_basic", "ep2_mul_sim_trick", "ep2_mul_sim_inter", "ep2_mul_sim_joint", "ep2_mul_sim")
@@ -843,9 +899,13 @@ def run(ctx, part):
                                  ("zero", 0, "rand", rng.randrange(n)), ("n-1", n - 1, "small", 2)):
                 if mine():
                     sim_case(fn, rel, kc, k, mc, m)
-        for reps in ("NA", "AN", "NN"):
+        for reps in ("NA", "AN", "NN", "LA", "AL", "LL", "LN"):
             if mine():
                 sim_case(fn, "gen", "rand", rng.randrange(n), "rand", rng.randrange(n), reps=reps)
+        for reps in ("NN", "LL"):
+            for rel in ("P=Q", "P=-Q"):
+                if mine():
+                    sim_case(fn, rel, "rand", rng.randrange(n), "rand", rng.randrange(n), reps=reps)
         for alias in (1, 2):
             if mine():
                 sim_case(fn, "gen", "rand", rng.randrange(n), "rand", rng.randrange(n), alias=alias)
@@ -856,7 +916,7 @@ def run(ctx, part):
         if fn == "ep2_mul_sim_trick" and (trick_fatal(k) or trick_fatal(m)):
             continue
         sim_case(fn, rng.choice(["gen"] * 6 + ["P=Q", "P=-Q", "infP", "infQ"]), kc, k, mc, m, alias=rng.choice([0, 0, 0, 1, 2]),
-                 reps=rng.choice(["AA", "AA", "AA", "NA", "AN", "NN"]))
+                 reps=rng.choice(["AA", "AA", "AA", "NA", "AN", "NN", "LA", "AL", "LL"]))
 
     def simgen_case(kc, k, mc, m, qcls="sub"):
         def body():
@@ -864,7 +924,7 @@ def run(ctx, part):
                 return
             bq, rep = pick_point(qcls)
             key = "ep2_mul_sim_gen|%s,%s|%s" % (group(kc), group(mc), "sub" if qcls == "G" else qcls)
-            db = env.wr(B, bq.P, rep)
+            db = env.wr(B, bq.P, rep, order=bq.order)
             env.setk(env.k, k)
             env.setk(env.m, m)
             if not ctx.begin(key, {"Q": pd(bq.P), "b": db, "k": hx(k), "m": hx(m)}, nontrivial=True):
@@ -882,18 +942,20 @@ def run(ctx, part):
                 mc, m = hostile_pairs[(i + j) % len(hostile_pairs)]
                 if mine():
                     simgen_case(kc, k, mc, m)
-        for qcls in ("inf", "G", "subN"):
+        for qcls in ("inf", "G", "subN", "subL"):
             if mine():
                 simgen_case("rand", rng.randrange(n), "rand", rng.randrange(n), qcls)
         for _ in range(N(40, 800)):
             kc, k = rand_scalar(env)
             mc, m = rand_scalar(env)
-            simgen_case(kc, k, mc, m, rng.choice(["sub", "sub", "G", "subN"]))
+            simgen_case(kc, k, mc, m, rng.choice(["sub", "sub", "G", "subN", "subL"]))
 
     def simdig_case(cnt, special=None):
         def body():
             bases = [rng.choice(S + [env.G] + T) for _ in range(cnt)]
-            reps = [rng.choice(["A", "A", NAT]) for _ in range(cnt)]
+            reps = [rng.choice(["A", "A", NAT, "L"]) for _ in range(cnt)]
+            if special == "proj":
+                reps = [rng.choice([NAT, "L"]) for _ in range(cnt)]
             ds = [rng.choice([0, 1, (1 << 64) - 1, rng.getrandbits(64), rng.getrandbits(64), rng.getrandbits(12)])
                   for _ in range(cnt)]
             if special == "all-zero":
@@ -929,7 +991,7 @@ def run(ctx, part):
 
     if has("ep2_mul_sim_dig") and R.DIG == 64:
         for cnt in (1, 2, 3, 5):
-            for sp in (None, "all-zero", "same-point", "with-inf"):
+            for sp in (None, "all-zero", "same-point", "with-inf", "proj"):
                 if mine():
                     simdig_case(cnt, sp)
         for _ in range(N(30, 500)):
@@ -960,7 +1022,8 @@ def run(ctx, part):
             R.poison = rng.randrange(1, 256)
             kb = R.mem(R.bn_sz * max(cnt, 1), R.poison)
             try:
-                enc = [env.wr(e.at(arr, i), bases[i].P, "A") for i in range(cnt)]
+                enc = [env.wr(e.at(arr, i), bases[i].P, rng.choice([NAT, "L"]) if special == "proj" else "A",
+                              order=bases[i].order) for i in range(cnt)]
                 for i in range(cnt):
                     if R.call("bn_make", kb + i * R.bn_sz, R.BN_SIZE).caught:
                         raise RuntimeError("bn_make")
@@ -988,11 +1051,11 @@ def run(ctx, part):
             if mine():
                 simlot_case(cnt)
         for cnt in (2, 4, 11):
-            for sp in ("hostile", "same-point", "cancel", "with-inf", "zero-scalar"):
+            for sp in ("hostile", "same-point", "cancel", "with-inf", "zero-scalar", "proj"):
                 if mine():
                     simlot_case(cnt, sp)
         for _ in range(N(8, 200)):
-            simlot_case(rng.choice([1, 2, 3, 5, 9, 10, 11, 13]), rng.choice([None, None, "hostile"]))
+            simlot_case(rng.choice([1, 2, 3, 5, 9, 10, 11, 13]), rng.choice([None, None, "hostile", "proj"]))
 
     # =========================================================================== Frobenius
     lam = M.lam
@@ -1001,7 +1064,7 @@ def run(ctx, part):
         def body():
             base = rng.choice(S + [env.G])
             key = "ep2_frb|subgroup|pow%s|%s%s" % (i if i < 4 else "4+", rep, "|alias" if alias else "")
-            da = env.wr(A, base.P, rep)
+            da = env.wr(A, base.P, rep, order=base.order)
             if not ctx.begin(key, {"P": pd(base.P), "a": da, "i": i}, nontrivial=True):
                 return
             e.poison(C)
@@ -1018,7 +1081,7 @@ def run(ctx, part):
         def body():
             base = rng.choice(T) if pcls == "tw" else epx.Base(E, rng.choice(small)[1])
             key = "ep2_frb|%s|char-eq|%s" % (pcls, rep)
-            da = env.wr(A, base.P, rep)
+            da = env.wr(A, base.P, rep, order=base.order)
             if not ctx.begin(key, {"P": pd(base.P), "a": da}, nontrivial=True):
                 return
             e.poison(C)
@@ -1047,7 +1110,7 @@ def run(ctx, part):
 
     if has("ep2_frb"):
         for i in (0, 1, 2, 3, 4, 6, 12):
-            for rep in "APJ":
+            for rep in "APJL":
                 if mine():
                     frb_sub_case(i, rep)
         for i in (1, 2, 3):
@@ -1059,7 +1122,7 @@ def run(ctx, part):
         if small and mine():
             frb_tw_case("A", "small")
         for _ in range(N(80, 1200)):
-            frb_sub_case(rng.choice([1, 1, 2, 2, 3, 3, 4, 5, 7]), rng.choice("AAPJ"), int(rng.random() < 0.2))
+            frb_sub_case(rng.choice([1, 1, 2, 2, 3, 3, 4, 5, 7]), rng.choice("AAPJL"), int(rng.random() < 0.2))
         for _ in range(N(12, 200)):
             T.append(epx.Base(E, M.rand_point2(rng)))
             frb_tw_case(rng.choice("AAP"))
@@ -1140,13 +1203,13 @@ def run(ctx, part):
 
     if has("ep2_mul_cof"):
         for pcls in ["tw", "tw", "sub", "inf"] + (["small", "small+sub"] if small else []):
-            for rep in ("A", NAT):
+            for rep in ("A", NAT, "L"):
                 if mine():
                     cof_case(pcls, rep)
         if mine():
             cof_case("tw", "A", alias=1)
         for _ in range(N(28, 500)):
-            cof_case(rng.choice(["tw", "tw", "tw", "sub"] + (["small", "small+sub"] if small else [])), rng.choice(["A", "A", NAT]),
+            cof_case(rng.choice(["tw", "tw", "tw", "sub"] + (["small", "small+sub"] if small else [])), rng.choice(["A", "A", NAT, "L"]),
                      int(rng.random() < 0.15))
         for _ in range(N(6, 100)):
             cof_hom_case()
@@ -1216,7 +1279,7 @@ def run(ctx, part):
             base, rep = pick_point(pcls)
             cnt = 1 if wd <= 2 else 1 << (wd - 2)
             key = "ep2_tab|w%d|%s" % (wd, pcls)
-            da = env.wr(A, base.P, rep)
+            da = env.wr(A, base.P, rep, order=base.order)
             R.poison = rng.randrange(1, 256)
             tab = e.new(cnt)
             try:
